@@ -14,6 +14,9 @@ def main(argv):
     module = load_module(prop)
     repo_sanity()
     case = ast.literal_eval(rec["case"])
+    if getattr(module, "PRELUDE", True):
+        from . import prelude
+        prelude.run()
     ctx = Ctx(module, "quick", 0, 0, 1, replay=True)
     print(f"replaying {prop} kind={rec['kind']} case={rec['case'][:500]}")
     setup = getattr(module, "replay_setup", None)
